@@ -53,8 +53,8 @@ macro_rules! ans_io_harnesses {
                 // independent assertion groups (kx::group): 0 size queries, 1 word iterator, 2 clone, 3 export / re-import
                 let grp = group(4);
                 if grp == 0 {
-                    assert!(c.num_words() == n, "C18: num_words differs from the length of the exported data");
-                    assert!(c.num_bits() == n * WB as usize, "C18: num_bits differs from wb * exported words");
+                    assert!(c.num_words() == n, "C18/C12: num_words differs from the length of the exported data");
+                    assert!(c.num_bits() == n * WB as usize, "C18/C12: num_bits differs from wb * exported words");
                     assert!(c.is_empty() == (n == 0), "C18: is_empty must hold exactly when exporting returns nothing");
                     assert!(Decode::<1>::maybe_exhausted(&c) == (n == 0), "C18: maybe_exhausted must equal is_empty for the ANS coder");
                     return;
@@ -126,8 +126,8 @@ macro_rules! ans_io_harnesses {
                 }
                 if grp == 2 {
                     let (b1, s1) = c.clone().into_raw_parts();
-                    assert!(s1 == s0 && b1.n == b0.n, "C01/C08/C06: dropping the get_binary view did not restore the coder");
-                    let mut i = 0; while i < b0.n { assert!(b1.buf[i] == b0.buf[i], "C01/C08/C06: dropping the get_binary view changed the bulk"); i += 1; }
+                    assert!(s1 == s0 && b1.n == b0.n, "C01/C08/C06/C04/C12: dropping the get_binary view did not restore the coder");
+                    let mut i = 0; while i < b0.n { assert!(b1.buf[i] == b0.buf[i], "C01/C08/C06/C04/C12: dropping the get_binary view changed the bulk"); i += 1; }
                     return;
                 }
                 match c.into_binary() {
@@ -172,8 +172,8 @@ macro_rules! ans_io_harnesses {
                 }
                 if grp == 0 { return; }
                 let (b1, s1) = c.into_raw_parts();
-                assert!(s1 == state && b1.n == bulk.n, "C08/C01/C12: dropping the get_compressed view did not restore the coder (stale words stay on the bulk)");
-                let mut i = 0; while i < bulk.n { assert!(b1.buf[i] == bulk.buf[i], "C08/C01/C12: dropping the get_compressed view changed the bulk"); i += 1; }
+                assert!(s1 == state && b1.n == bulk.n, "C08/C01/C12/C06: dropping the get_compressed view did not restore the coder (stale words stay on the bulk)");
+                let mut i = 0; while i < bulk.n { assert!(b1.buf[i] == bulk.buf[i], "C08/C01/C12/C06: dropping the get_compressed view changed the bulk"); i += 1; }
             }
 
             /// C07: pos() == (backend position, state); seek((p, s)) truncates the stack backend to p and
